@@ -108,24 +108,29 @@ theorem lame_second_young : lameParameters sqrtF .none none (some m) none none (
 
 end
 
-/-- (ν, E): the table calls a number — every input is rejected with a TypeError. -/
-theorem lame_poisson_young_error (sqrtF : K → K) (nu E : K) :
-    lameParameters sqrtF .none none none none (some nu) (some E) = .error "err:type" := by
-  simp only [lameParameters, lameTable, List.filter, Option.isSome, List.length, Nat.reduceAdd, ne_eq,
-    not_true_eq_false, reduceIte, bind, Except.bind, pure, Except.pure]
+/-- (ν, E) after fix 4eb1789: `λ = νE / ((1+ν)(1−2ν))`, `μ = E / (2(1+ν))`. -/
+theorem lame_poisson_young (sqrtF : K → K) (l m : K) (hl : lameTiny ≤ l) (hm : lameTiny ≤ m) :
+    lameParameters sqrtF .none none none none (some (poissonOf l m)) (some (youngOf l m)) = .ok (l, m) := by
+  have hl0 : 0 < l := lt_of_lt_of_le lameTiny_pos hl
+  have hm0 : 0 < m := lt_of_lt_of_le lameTiny_pos hm
+  have hs : l + m ≠ 0 := by positivity
+  unfold poissonOf youngOf
+  have e1 : ((1 : Nat) : K) + l / (2 * (l + m)) = (3 * l + 2 * m) / (2 * (l + m)) := by push_cast; field_simp; ring
+  have e2 : ((1 : Nat) : K) - ((2 : Nat) : K) * (l / (2 * (l + m))) = m / (l + m) := by push_cast; field_simp; ring
+  have hd1 : (((1 : Nat) : K) + l / (2 * (l + m))) * (((1 : Nat) : K) - ((2 : Nat) : K) * (l / (2 * (l + m)))) ≠ 0 := by
+    rw [e1, e2]; positivity
+  have hd2 : ((2 : Nat) : K) * (((1 : Nat) : K) + l / (2 * (l + m))) ≠ 0 := by rw [e1]; push_cast; positivity
+  have hv1 : l / (2 * (l + m)) * (m * (3 * l + 2 * m) / (l + m))
+      / ((((1 : Nat) : K) + l / (2 * (l + m))) * (((1 : Nat) : K) - ((2 : Nat) : K) * (l / (2 * (l + m))))) = l := by
+    rw [e1, e2]; field_simp
+  have hv2 : m * (3 * l + 2 * m) / (l + m) / (((2 : Nat) : K) * (((1 : Nat) : K) + l / (2 * (l + m)))) = m := by
+    rw [e1]; push_cast; field_simp
+  simp only [lameParameters, lameTable, List.filter, Option.isSome, List.length, Option.getD, Nat.reduceAdd, ne_eq,
+    not_true_eq_false, reduceIte, pyDiv_ok _ _ hd1, pyDiv_ok _ _ hd2, hv1, hv2,
+    bind, Except.bind, pure, Except.pure, lameClip_ok _ l hl, lameClip_ok _ m hm]
 
-/-- (λ, E) as coded: `E − 3λ + r/4`. -/
-theorem lame_first_young_coded (sqrtF : K → K) (l E : K) :
-    lameParameters sqrtF .none (some l) none none none (some E)
-      = (do let l' ← lameClip "first" l
-            let m' ← lameClip "second" (E - ((3 : Nat) : K) * l
-                + sqrtF (E * E + ((9 : Nat) : K) * (l * l) + ((2 : Nat) : K) * E * l) / ((4 : Nat) : K))
-            pure (l', m')) := by
-  simp only [lameParameters, lameTable, List.filter, Option.isSome, List.length, Nat.reduceAdd, ne_eq,
-    not_true_eq_false, reduceIte, bind, Except.bind, pure, Except.pure]
-
-/-- the intended formula `(E − 3λ + r) / 4` does give μ back. -/
-theorem lame_first_young_intended (l m r : K) (hl : 0 < l) (hm : 0 < m)
+/-- the (λ, E) formula `(E − 3λ + r)/4` with `r² = E² + 9λ² + 2Eλ`, `r ≥ 0` returns μ. -/
+theorem lame_first_young_value (l m r : K) (hl : 0 < l) (hm : 0 < m)
     (hr : r * r = youngOf l m * youngOf l m + 9 * (l * l) + 2 * youngOf l m * l) (hr0 : 0 ≤ r) :
     (youngOf l m - 3 * l + r) / 4 = m := by
   have hs : l + m ≠ 0 := by positivity
@@ -140,6 +145,18 @@ theorem lame_first_young_intended (l m r : K) (hl : 0 < l) (hm : 0 < m)
     · exact e
     · linarith
   rw [this]; ring
+
+/-- (λ, E) after fix eb24e6a; the square root is the value `r` with `r² = E² + 9λ² + 2Eλ`, `r ≥ 0`. -/
+theorem lame_first_young (l m r : K) (hl : lameTiny ≤ l) (hm : lameTiny ≤ m)
+    (hr : r * r = youngOf l m * youngOf l m + 9 * (l * l) + 2 * youngOf l m * l) (hr0 : 0 ≤ r) :
+    lameParameters (fun _ => r) .none (some l) none none none (some (youngOf l m)) = .ok (l, m) := by
+  have hl0 : 0 < l := lt_of_lt_of_le lameTiny_pos hl
+  have hm0 : 0 < m := lt_of_lt_of_le lameTiny_pos hm
+  have hv : (youngOf l m - ((3 : Nat) : K) * l + r) / ((4 : Nat) : K) = m := by
+    have := lame_first_young_value l m r hl0 hm0 hr hr0
+    push_cast; exact this
+  simp only [lameParameters, lameTable, List.filter, Option.isSome, List.length, Nat.reduceAdd, ne_eq,
+    not_true_eq_false, reduceIte, hv, bind, Except.bind, pure, Except.pure, lameClip_ok _ l hl, lameClip_ok _ m hm]
 
 end Reg
 end Deepali
